@@ -84,6 +84,27 @@ type childIn struct {
 	Pauses   []int             `json:"pauses,omitempty"` // pause (time-out window) after feeding these indices
 	Meta     map[string]string `json:"meta,omitempty"`
 	DeferK   int               `json:"defer_k"`
+	// KeepOut: return the encoding of every event at the output (chain clause:
+	// the parent compares it with the step-by-step reference evaluation)
+	KeepOut bool `json:"keep_out,omitempty"`
+	// OneSource: feed every event from one source (deterministic order for a
+	// holding action); default: two sources taking turns
+	OneSource bool `json:"one_source,omitempty"`
+	// concurrency clause (child "par")
+	Sources int  `json:"sources,omitempty"` // number of sources = feeder goroutines of the parallel phase
+	Rounds  int  `json:"rounds,omitempty"`  // the parallel phase feeds the list this many times
+	Compare bool `json:"compare,omitempty"` // per event outputs of the phases must be equal
+	// PipeName: both phases use this pipeline name (hash keeps one normalizer
+	// per pipeline name and action index; compiling the built-in patterns
+	// takes seconds, the second phase finds it in the plugin's cache)
+	PipeName string `json:"pipe_name,omitempty"`
+}
+
+// outRec is one event at the output (KeepOut).
+type outRec struct {
+	Idx  int    `json:"i"`
+	Kind string `json:"k,omitempty"` // "" regular | child
+	Enc  []byte `json:"e"`
 }
 
 type invalidRec struct {
@@ -110,11 +131,13 @@ type childOut struct {
 	OutBytes  int64        `json:"out_bytes"`
 	StartedMs int64        `json:"started_ms"`
 	TotalMs   int64        `json:"total_ms"`
+	Outs      []outRec     `json:"outs,omitempty"` // KeepOut: in output order
 }
 
 // log lines of the child
 type clog struct {
-	T   string      `json:"t"`           // start | started | do | invalid | done
+	T   string      `json:"t"`           // start | started | do | invalid | done | phase
+	P   string      `json:"p,omitempty"` // phase name (child "par")
 	I   int         `json:"i,omitempty"` // event index for "do"
 	Inv *invalidRec `json:"inv,omitempty"`
 }
@@ -122,10 +145,43 @@ type clog struct {
 // ---- head probe ----
 
 type headCfg struct{}
-type headPlugin struct{}
+type headPlugin struct {
+	inside bool // this processor is between the head probe and the tail probe (gauge on only)
+}
+
+// gauge of the concurrency clause: how many processors are inside the tested
+// action(s) at once. The head probe (one instance per processor) enters, the
+// tail probe behind the tested actions leaves; an event that never reaches
+// the tail (dropped, held) leaves when its processor enters again.
+var (
+	gaugeOn     atomic.Bool
+	gaugeInside atomic.Int64
+	gaugeMax    atomic.Int64
+	gaugeOwner  sync.Map // *pipeline.Event -> *headPlugin
+)
+
+const tailType = "verif_c13_tail"
+
+type tailPlugin struct{}
+
+func (t *tailPlugin) Start(pipeline.AnyConfig, *pipeline.ActionPluginParams) {}
+func (t *tailPlugin) Stop()                                                  {}
+func (t *tailPlugin) Do(e *pipeline.Event) pipeline.ActionResult {
+	if gaugeOn.Load() {
+		if h, ok := gaugeOwner.LoadAndDelete(e); ok {
+			hp := h.(*headPlugin)
+			if hp.inside { // same processor goroutine as the head probe that set it
+				hp.inside = false
+				gaugeInside.Add(-1)
+			}
+		}
+	}
+	return pipeline.ActionPass
+}
 
 var (
 	curIO    *core.ChildIO
+	headMute atomic.Bool  // parallel phase: no write to the command log per event (it would serialise the processors)
 	curHead  atomic.Int64 // index of the event most recently seen by the head probe
 	headSeen atomic.Int64
 	outcomes []atomic.Uint32
@@ -138,11 +194,26 @@ func (h *headPlugin) Do(e *pipeline.Event) pipeline.ActionResult {
 		return pipeline.ActionPass
 	}
 	i := int(e.Offset)
-	var b [40]byte
-	line := append(b[:0], `{"t":"do","i":`...)
-	line = appendInt(line, i)
-	line = append(line, '}', '\n')
-	curIO.LogRaw(line)
+	if gaugeOn.Load() {
+		if !h.inside {
+			h.inside = true
+			n := gaugeInside.Add(1)
+			for {
+				m := gaugeMax.Load()
+				if n <= m || gaugeMax.CompareAndSwap(m, n) {
+					break
+				}
+			}
+		}
+		gaugeOwner.Store(e, h)
+	}
+	if !headMute.Load() {
+		var b [40]byte
+		line := append(b[:0], `{"t":"do","i":`...)
+		line = appendInt(line, i)
+		line = append(line, '}', '\n')
+		curIO.LogRaw(line)
+	}
 	curHead.Store(int64(i))
 	headSeen.Add(1)
 	mark(i, ocHead)
@@ -166,6 +237,10 @@ func registerHead() {
 	fd.DefaultPluginRegistry.RegisterAction(&pipeline.PluginStaticInfo{
 		Type:    headType,
 		Factory: func() (pipeline.AnyPlugin, pipeline.AnyConfig) { return &headPlugin{}, &headCfg{} },
+	})
+	fd.DefaultPluginRegistry.RegisterAction(&pipeline.PluginStaticInfo{
+		Type:    tailType,
+		Factory: func() (pipeline.AnyPlugin, pipeline.AnyConfig) { return &tailPlugin{}, &headCfg{} },
 	})
 }
 
@@ -197,6 +272,7 @@ type hOutput struct {
 	base   [][]byte
 	res    *childOut
 	buf    []byte
+	keep   bool
 }
 
 func (o *hOutput) Start(_ pipeline.AnyConfig, p *pipeline.OutputPluginParams) { o.ctl = p.Controller }
@@ -218,6 +294,13 @@ func (o *hOutput) Out(e *pipeline.Event) {
 		}
 		o.buf = e.Root.Encode(o.buf[:0])
 		enc := append([]byte(nil), o.buf...)
+		if o.keep {
+			k := ""
+			if kind == "child" {
+				k = kind
+			}
+			o.res.Outs = append(o.res.Outs, outRec{Idx: idx, Kind: k, Enc: enc})
+		}
 		o.res.Outputs++
 		o.res.OutBytes += int64(len(enc))
 		if err := checkJSON(enc); err != nil {
@@ -357,74 +440,14 @@ func childMain(raw json.RawMessage, cio *core.ChildIO) (any, error) {
 	outcomes = make([]atomic.Uint32, len(in.Events))
 	curHead.Store(-1)
 
-	// the actions array as it would stand in a pipeline config
-	acts := []json.RawMessage{json.RawMessage(`{"type":"` + headType + `"}`)}
-	acts = append(acts, in.Actions...)
-	actsJSON, _ := json.Marshal(acts)
-	sj, err := simplejson.NewJson(actsJSON)
+	base := baseEncodings(&in, order)
+	output := &hOutput{deferK: in.DeferK, base: base, res: res, keep: in.KeepOut}
+	p, input, evTimeout, setupErr, err := buildPipeline(&in, true, output)
 	if err != nil {
-		return nil, fmt.Errorf("actions json: %w", err)
+		return nil, err
 	}
-
-	s := in.Settings
-	if s.Capacity == 0 {
-		s.Capacity = 16
-	}
-	if s.AvgEventSize == 0 {
-		s.AvgEventSize = 128 // small on purpose: buffers must grow and are reused
-	}
-	evTimeout := pipeline.DefaultEventTimeout
-	if s.EventTimeoutMs > 0 {
-		evTimeout = time.Duration(s.EventTimeoutMs) * time.Millisecond
-	}
-	settings := &pipeline.Settings{
-		Capacity:                s.Capacity,
-		MaintenanceInterval:     5 * time.Second,
-		EventTimeout:            evTimeout,
-		Antispam:                pipeline.AntispamSettings{Threshold: pipeline.DefaultAntispamThreshold},
-		AvgEventSize:            s.AvgEventSize,
-		MaxEventSize:            s.MaxEventSize,
-		CutOffEventByLimit:      s.CutOffEventByLimit,
-		CutOffEventByLimitField: s.CutOffEventByLimitField,
-		MetaCacheSize:           32,
-		StreamField:             "stream",
-		Decoder:                 "json",
-		IsStrict:                s.IsStrict,
-		Pool:                    pipeline.PoolTypeStd,
-		Metric: &pipeline.MetricSettings{
-			HoldDuration:        pipeline.DefaultMetricHoldDuration,
-			MaxLabelValueLength: s.MetricMaxLabelLen,
-		},
-	}
-	if s.K8s {
-		installK8sMeta()
-	}
-	name := fmt.Sprintf("c13_%d", pipeSeq.Add(1))
-	p := pipeline.New(name, settings, prometheus.NewRegistry(), newLogger())
-	p.DisableParallelism()
-	input := &hInput{}
-	p.SetInput(&pipeline.InputPluginInfo{
-		PluginStaticInfo:  &pipeline.PluginStaticInfo{Type: "verif_c13_in"},
-		PluginRuntimeInfo: &pipeline.PluginRuntimeInfo{Plugin: input},
-	})
-	// the untouched encoding of every event (decode + encode, no action)
-	base := make([][]byte, len(in.Events))
-	{
-		r := insaneJSON.Spawn()
-		for _, i := range order {
-			if err := r.DecodeBytes(in.Events[i]); err == nil {
-				base[i] = r.Encode(nil)
-			}
-		}
-		insaneJSON.Release(r)
-	}
-	output := &hOutput{deferK: in.DeferK, base: base, res: res}
-	p.SetOutput(&pipeline.OutputPluginInfo{
-		PluginStaticInfo:  &pipeline.PluginStaticInfo{Type: "verif_c13_out"},
-		PluginRuntimeInfo: &pipeline.PluginRuntimeInfo{Plugin: output},
-	})
-	if err := fd.SetupActions(p, fd.DefaultPluginRegistry, sj, map[string]int{"capacity": s.Capacity, "gomaxprocs": 1}); err != nil {
-		res.SetupErr = err.Error()
+	if setupErr != "" {
+		res.SetupErr = setupErr
 		return res, nil
 	}
 
@@ -482,7 +505,11 @@ func childMain(raw json.RawMessage, cio *core.ChildIO) (any, error) {
 	}()
 
 	for _, i := range order {
-		seq := input.ctl.In(pipeline.SourceID(1+(i/32)%2), "c13.log", pipeline.NewOffsets(int64(i), nil), in.Events[i], false, meta)
+		src := pipeline.SourceID(1 + (i/32)%2)
+		if in.OneSource {
+			src = 1
+		}
+		seq := input.ctl.In(src, "c13.log", pipeline.NewOffsets(int64(i), nil), in.Events[i], false, meta)
 		if seq == pipeline.EventSeqIDError {
 			mark(i, ocRejected)
 		} else {
@@ -510,6 +537,90 @@ func childMain(raw json.RawMessage, cio *core.ChildIO) (any, error) {
 	res.TotalMs = time.Since(t0).Milliseconds()
 	cio.Log(clog{T: "done"})
 	return res, nil
+}
+
+// baseEncodings: the untouched encoding of every event (decode + encode, no action).
+func baseEncodings(in *childIn, order []int) [][]byte {
+	base := make([][]byte, len(in.Events))
+	r := insaneJSON.Spawn()
+	for _, i := range order {
+		if err := r.DecodeBytes(in.Events[i]); err == nil {
+			base[i] = r.Encode(nil)
+		}
+	}
+	insaneJSON.Release(r)
+	return base
+}
+
+// buildPipeline sets up harness input -> [head, actions...] -> output; single:
+// one processor (DisableParallelism), else the pipeline's default (2 x GOMAXPROCS).
+func buildPipeline(in *childIn, single bool, output pipeline.AnyPlugin) (p *pipeline.Pipeline, input *hInput, evTimeout time.Duration, setupErr string, err error) {
+	// the actions array as it would stand in a pipeline config
+	acts := []json.RawMessage{json.RawMessage(`{"type":"` + headType + `"}`)}
+	acts = append(acts, in.Actions...)
+	if gaugeOn.Load() {
+		acts = append(acts, json.RawMessage(`{"type":"`+tailType+`"}`))
+	}
+	actsJSON, _ := json.Marshal(acts)
+	sj, err := simplejson.NewJson(actsJSON)
+	if err != nil {
+		return nil, nil, 0, "", fmt.Errorf("actions json: %w", err)
+	}
+
+	s := in.Settings
+	if s.Capacity == 0 {
+		s.Capacity = 16
+	}
+	if s.AvgEventSize == 0 {
+		s.AvgEventSize = 128 // small on purpose: buffers must grow and are reused
+	}
+	evTimeout = pipeline.DefaultEventTimeout
+	if s.EventTimeoutMs > 0 {
+		evTimeout = time.Duration(s.EventTimeoutMs) * time.Millisecond
+	}
+	settings := &pipeline.Settings{
+		Capacity:                s.Capacity,
+		MaintenanceInterval:     5 * time.Second,
+		EventTimeout:            evTimeout,
+		Antispam:                pipeline.AntispamSettings{Threshold: pipeline.DefaultAntispamThreshold},
+		AvgEventSize:            s.AvgEventSize,
+		MaxEventSize:            s.MaxEventSize,
+		CutOffEventByLimit:      s.CutOffEventByLimit,
+		CutOffEventByLimitField: s.CutOffEventByLimitField,
+		MetaCacheSize:           32,
+		StreamField:             "stream",
+		Decoder:                 "json",
+		IsStrict:                s.IsStrict,
+		Pool:                    pipeline.PoolTypeStd,
+		Metric: &pipeline.MetricSettings{
+			HoldDuration:        pipeline.DefaultMetricHoldDuration,
+			MaxLabelValueLength: s.MetricMaxLabelLen,
+		},
+	}
+	if s.K8s {
+		installK8sMeta()
+	}
+	name := fmt.Sprintf("c13_%d", pipeSeq.Add(1))
+	if in.PipeName != "" {
+		name = in.PipeName
+	}
+	p = pipeline.New(name, settings, prometheus.NewRegistry(), newLogger())
+	if single {
+		p.DisableParallelism()
+	}
+	input = &hInput{}
+	p.SetInput(&pipeline.InputPluginInfo{
+		PluginStaticInfo:  &pipeline.PluginStaticInfo{Type: "verif_c13_in"},
+		PluginRuntimeInfo: &pipeline.PluginRuntimeInfo{Plugin: input},
+	})
+	p.SetOutput(&pipeline.OutputPluginInfo{
+		PluginStaticInfo:  &pipeline.PluginStaticInfo{Type: "verif_c13_out"},
+		PluginRuntimeInfo: &pipeline.PluginRuntimeInfo{Plugin: output},
+	})
+	if err := fd.SetupActions(p, fd.DefaultPluginRegistry, sj, map[string]int{"capacity": s.Capacity, "gomaxprocs": 1}); err != nil {
+		return nil, nil, 0, err.Error(), nil
+	}
+	return p, input, evTimeout, "", nil
 }
 
 // checkJSON is the reference for "a well-formed JSON document that encodes and
